@@ -52,6 +52,9 @@ pub struct ScenarioResult {
     pub counters: BTreeMap<String, u64>,
     /// identifies the class of a violation for the known-findings file
     pub finding_key: Option<String>,
+    /// findings observed by a scenario that otherwise went on and held: key -> (hits, what).
+    /// A key that is not listed in known_findings.json is reported as a VIOLATION.
+    pub noted: BTreeMap<String, (u64, String)>,
 }
 
 impl ScenarioResult {
@@ -62,6 +65,7 @@ impl ScenarioResult {
             sample: None,
             counters: BTreeMap::new(),
             finding_key: None,
+            noted: BTreeMap::new(),
         }
     }
     pub fn violated(what: impl Into<String>, witness: Value) -> Self {
@@ -74,6 +78,7 @@ impl ScenarioResult {
             sample: None,
             counters: BTreeMap::new(),
             finding_key: None,
+            noted: BTreeMap::new(),
         }
     }
     pub fn inconclusive(why: impl Into<String>) -> Self {
@@ -83,6 +88,7 @@ impl ScenarioResult {
             sample: None,
             counters: BTreeMap::new(),
             finding_key: None,
+            noted: BTreeMap::new(),
         }
     }
     pub fn skipped(why: impl Into<String>) -> Self {
@@ -92,6 +98,7 @@ impl ScenarioResult {
             sample: None,
             counters: BTreeMap::new(),
             finding_key: None,
+            noted: BTreeMap::new(),
         }
     }
     pub fn with_sample(mut self, v: Value) -> Self {
@@ -109,6 +116,10 @@ impl ScenarioResult {
     pub fn count(mut self, k: &str, n: u64) -> Self {
         *self.counters.entry(k.to_owned()).or_default() += n;
         self
+    }
+    pub fn note(&mut self, key: &str, hits: u64, what: impl Into<String>) {
+        let e = self.noted.entry(key.to_owned()).or_insert((0, what.into()));
+        e.0 += hits;
     }
     pub fn add(&mut self, k: &str, n: u64) {
         *self.counters.entry(k.to_owned()).or_default() += n;
@@ -226,6 +237,7 @@ pub struct Summary {
     pub counters: BTreeMap<String, u64>,
     pub inconclusive_reasons: BTreeMap<String, u64>,
     pub skipped_reasons: BTreeMap<String, u64>,
+    pub noted: BTreeMap<String, (u64, String, usize)>,
     pub wall_s: f64,
 }
 
@@ -233,6 +245,10 @@ impl Summary {
     pub fn absorb(&mut self, idx: usize, r: ScenarioResult) {
         for (k, v) in r.counters {
             *self.counters.entry(k).or_default() += v;
+        }
+        for (k, (n, what)) in r.noted {
+            let e = self.noted.entry(k).or_insert((0, what, idx));
+            e.0 += n;
         }
         match r.verdict {
             Verdict::Held => {
@@ -283,6 +299,10 @@ impl Summary {
         }
         for (k, v) in o.skipped_reasons {
             *self.skipped_reasons.entry(k).or_default() += v;
+        }
+        for (k, (n, what, idx)) in o.noted {
+            let e = self.noted.entry(k).or_insert((0, what, idx));
+            e.0 += n;
         }
         self.wall_s += o.wall_s;
     }
@@ -493,6 +513,20 @@ pub fn finish(report: Report) -> i32 {
                 what
             );
             printed += 1;
+        }
+    }
+    // findings noted by scenarios that went on: listed ones are KNOWN-FINDING, others violations
+    for (k, (n, what, idx)) in &report.summary.noted {
+        let listed = known.iter().any(|f| f.property == report.property && &f.key == k && f.status != "fixed");
+        if listed {
+            *known_hits.entry(k.clone()).or_default() += n;
+        } else {
+            new_violations += 1;
+            let path = replays.join(format!("{}-{}-{}-{}.json", report.property, report.tier.as_str(), report.seed, idx));
+            let doc = json!({"property": report.property, "tier": report.tier.as_str(), "seed": report.seed,
+                "scenario": idx, "what": what, "finding_key": k, "witness": {"hits": n}});
+            let _ = std::fs::write(&path, serde_json::to_string_pretty(&doc).unwrap());
+            println!("VIOLATION property={} replay={} -- {} [{} hits, key={}]", report.property, path.display(), what, n, k);
         }
     }
     for (k, n) in &known_hits {
